@@ -679,7 +679,7 @@ func scenarios(res *report.Result) []schedrun.Scenario {
 				for i := 0; i < b; i++ {
 					w *= 150
 				}
-				out = append(out, schedrun.Scenario{Name: n, Mode: explore.Delay, Bound: b, MaxSteps: 40000, Weight: w})
+				out = append(out, schedrun.Scenario{Name: n, Mode: explore.Delay, Bound: b, MaxSteps: 40000, Weight: w, Postpone: true})
 			}
 		}
 	}
